@@ -10,6 +10,8 @@ OPERAND = {'arith_c', 'unary_num', 'concat_c', 'str_un', 'not', 'filter', 'nvl'}
 
 
 def main(ck):
+    if ck.replay_path:
+        return CC.replay(ck)
     pr = ck.proof('C05')
     q = ck.quick()
     res = []
